@@ -64,6 +64,9 @@ def rule_converters(ctx):
     en = [y for y in s.calls() if y.callee == "builtins.enumerate"]
     good = len(en) == 1 and len(en[0].args) == 2 and tm.is_const(en[0].args[1], 1)
     yield ob(R, f, "io.load_delimited:row-numbers", good, "rows are numbered by enumerate(file, 1)")
+    src = en[0].args[0] if en else None
+    direct = src is not None and (src.op == "with" or (src.op == "call" and call_name(src) == ".readlines" and src.a[1][0].op == "with"))
+    yield ob(R, f, "io.load_delimited:rows-are-file-lines", direct, "rows are the file object's own lines (iteration / readlines), not a re-split of its text (str.splitlines also breaks on U+2028, form feed, ...)")
     # the converted value itself is what is stored
     ap = [m for m in s.by_kind("mutate") if m.how == "method:append"]
     good = bool(ap) and all(m.val.op == "tuple" and len(m.val.a) == 1 and m.val.a[0].op == "call" and m.val.a[0].a[0].op == "iter" for m in ap)
@@ -288,7 +291,24 @@ def rule_comment(ctx):
         yield ob(R, f, "%s:comment-default" % q, okd and dv == "#", "default comment marker is %r" % (dv,))
 
 
+def rule_validatortotal(ctx):
+    """Validators that io.py wraps raise only ValueError: explicit raises (C14.RAISETYPES) and no unguarded table lookup."""
+    R = "C20.VALIDATORTOTAL"
+    from . import c14
+
+    targets = {"key.validate_key", "tempo.validate_tempi", "util.validate_events", "util.validate_intervals"}
+    for o in c14.rule_raisetypes(ctx):
+        if o.construct.split(":")[0] in targets:
+            o.rule = R
+            yield o
+    for o in c14.rule_totallookup(ctx):
+        if o.construct.split(":")[0] in targets:
+            o.rule = R
+            yield o
+
+
 RULES = [
+    ("C20.VALIDATORTOTAL", 10, rule_validatortotal),
     ("C20.CONVERTERS", 14, rule_converters),
     ("C20.ERRDISC", 5, rule_errdisc),
     ("C20.WARNWRAP", 10, rule_warnwrap),
